@@ -66,7 +66,7 @@ fn t1_sweep<const LO: usize, const HI: usize, const KL: usize>(inp: &[u8]) -> Op
     }
     None
 }
-//@ harness name=rc2_expand_t1_12 prop=C09,C20 cbmc_args=--max-field-sensitivity-array-size;160 tier=quick bits=16 est=110 need=10 desc="D: Rc2::expand_key(K, T1) == RFC 2268 key expansion for every effective key length T1 in 1..=12 (every residue mod 8, T8 = 1 and 2) with a fixed 8-byte key: decides the effective-length mask TM = 255 mod 2^(8 + T1 - 8*T8), T8 and the start of the backward pass for these T1; the key-dependent look-up chain is decided for this key only (each T1 is a concrete run of both expansions, ~50 k program steps each; field sensitivity raised to 160 elements so that the 128-byte buffer stays concrete)"
+//@ harness name=rc2_expand_t1_12 prop=C09,C20 cbmc_args=--max-field-sensitivity-array-size;160 tier=quick bits=16 est=120 need=11 desc="D: Rc2::expand_key(K, T1) == RFC 2268 key expansion for every effective key length T1 in 1..=12 (every residue mod 8, T8 = 1 and 2) with a fixed 8-byte key: decides the effective-length mask TM = 255 mod 2^(8 + T1 - 8*T8), T8 and the start of the backward pass for these T1; the key-dependent look-up chain is decided for this key only (each T1 is a concrete run of both expansions, ~50 k program steps each; field sensitivity raised to 160 elements so that the 128-byte buffer stays concrete)"
 verif_harness! {
     name: rc2_expand_t1_12,
     bytes: 2,
@@ -135,7 +135,7 @@ pub fn stub_expand_key(key: &[u8], t1: usize) -> [u16; 64] {
     }
 }
 
-//@ harness name=rc2_new_from_slice prop=C09,C20 tier=quick bits=3096 stub=1 est=230 desc="W: Rc2::new_from_slice(k), len symbolic 0..=130, is Err exactly for len 0 or > 128 and otherwise holds expand_key(k, 8*len) -- the same round keys as new_with_eff_key_len(k, 8*len) (which holds expand_key(k, t1) for any t1); expand_key uninterpreted (its conformance for all (len, t1) is rc2_expand_*)"
+//@ harness name=rc2_new_from_slice prop=C09,C20 tier=quick bits=3096 stub=1 est=205 desc="W: Rc2::new_from_slice(k), len symbolic 0..=130, is Err exactly for len 0 or > 128 and otherwise holds expand_key(k, 8*len) -- the same round keys as new_with_eff_key_len(k, 8*len) (which holds expand_key(k, t1) for any t1); expand_key uninterpreted (its conformance for all (len, t1) is rc2_expand_*)"
 verif_harness! {
     name: rc2_new_from_slice,
     bytes: 131 + 256,
@@ -278,7 +278,7 @@ verif_harness! {
     }
 }
 
-//@ harness name=rc2_conf_dec prop=C09,C20 tier=quick bits=1088 est=165 desc="D: decrypt_block on an arbitrary round-key state == RFC 2268 decryption (r-mix / r-mash), all blocks; j never leaves 0..=63 where it is used"
+//@ harness name=rc2_conf_dec prop=C09,C20 tier=quick bits=1088 est=150 desc="D: decrypt_block on an arbitrary round-key state == RFC 2268 decryption (r-mix / r-mash), all blocks; j never leaves 0..=63 where it is used"
 verif_harness! {
     name: rc2_conf_dec,
     bytes: 136,
